@@ -152,7 +152,7 @@ Definition nbytes (dlen : nat) : nat :=
 (** outer loop [for len(src) > 0 && !end]; returns the decoded bytes so far and the error offset *)
 Fixpoint decode_loop (fuel : nat) (src : bytes) (olen : Z) (acc : bytes) : bytes * option Z :=
   match fuel with
-  | O => (acc, None)
+  | O => match src with [] => (acc, None) | _ => (acc, Some (-1)%Z) end   (* out of fuel: never with fuel = len(src) *)
   | S f =>
     match src with
     | [] => (acc, None)
